@@ -367,7 +367,13 @@ def build_index():
             BY_NAME[c[0]] = c
 
 
+# pairs whose evaluation makes the implementation expand a huge offset set numerically (minutes; termination is C16's subject)
+SLOW_PAIRS = {frozenset(["capacity:uint8[2**32]", "directive:assert-offset"])}
+
+
 def compatible(a, b) -> bool:
+    if frozenset([a[0], b[0]]) in SLOW_PAIRS:
+        return False
     return a[1] != b[1] and frozenset([a[1], b[1]]) not in CONFLICTS
 
 
